@@ -12,6 +12,8 @@ package main
 
 import (
 	"fmt"
+	"os"
+	"strconv"
 	"time"
 
 	"verif/engine"
@@ -92,7 +94,7 @@ func scenarios(tier string) []engine.Scenario {
 	}
 	unis := []universe{
 		{16, false, nil},
-		{64, false, []string{"ratios", "mixed", "big61", "tiny"}}, // 8 blocks of 8 lanes, NTT stage loops
+		{64, false, []string{"ratios", "mixed", "big61"}}, // 8 blocks of 8 lanes, NTT stage loops
 		{16, true, []string{"mid30", "mixed"}},                    // conjugate-invariant ring
 		{32, true, []string{"ratios", "big61"}},                   // conjugate-invariant ring, odd log N
 	}
@@ -112,7 +114,10 @@ func scenarios(tier string) []engine.Scenario {
 			for _, o := range beOps {
 				us = append(us, beAlphaScenario(ch, o))
 			}
-			us = append(us, extendScenario(ch), evaluatorModDownScenario(ch), pow2Scenario(ch), beSequenceScenario(ch))
+			us = append(us, extendScenario(ch), evaluatorModDownScenario(ch), pow2Scenario(ch))
+			if ch.name == "mixed" || ch.name == "ratios" || thorough {
+				us = append(us, beSequenceScenario(ch))
+			}
 			for nQ := 1; nQ <= len(ch.Q); nQ++ {
 				for nP := 0; nP <= len(ch.P); nP++ {
 					us = append(us, decomposerScenario(ch, nQ, nP))
@@ -123,8 +128,11 @@ func scenarios(tier string) []engine.Scenario {
 				}
 			}
 			// state carried by one Evaluator / its ShallowCopy between calls
-			if ch.name == "mixed" || ch.name == "ratios" || thorough {
-				us = append(us, evaluatorSequenceScenario(ch, len(ch.Q), len(ch.P)), evaluatorSequenceScenario(ch, 4, 2))
+			if (ch.name == "mixed" && u.n == 16 && !u.ci) || (ch.name == "ratios" && u.n != 16) || thorough {
+				us = append(us, evaluatorSequenceScenario(ch, len(ch.Q), len(ch.P)))
+				if thorough {
+					us = append(us, evaluatorSequenceScenario(ch, 4, 2))
+				}
 			}
 		}
 		// a 6-prime Q with 4 P primes: digit shapes on both sides of "#P divides #Q" (6/1, 6/2, 6/3 divide; 6/4 does not),
@@ -145,6 +153,15 @@ func scenarios(tier string) []engine.Scenario {
 	}
 	setUniverse(16, false)
 	return scs
+}
+
+// budget: the internal wall-clock deadline; VERIF_BUDGET_S overrides it for runs on a heavily loaded machine (the
+// deadline never is a verdict, it only decides whether the run may call itself exhaustive).
+func budget(d time.Duration) time.Duration {
+	if s, err := strconv.Atoi(os.Getenv("VERIF_BUDGET_S")); err == nil && s > 0 {
+		return time.Duration(s) * time.Second
+	}
+	return d
 }
 
 func contains(l []string, s string) bool {
@@ -198,7 +215,7 @@ func main() {
 			"the gadget ciphertext of the recombination scenarios is noise free (zero mask, zero error): GadgetProductLazy must then return exactly pt·P·x",
 		},
 		Scenarios:      scenarios,
-		QuickBudget:    150 * time.Second,
+		QuickBudget:    budget(150 * time.Second),
 		ThoroughBudget: 25 * time.Minute,
 		Expect: func(tier string) []string {
 			setUniverse(16, false)
